@@ -156,6 +156,13 @@ func (g *stakeGen) next(maxTxs int) (sb stakeBlock) {
 				di = r.Intn(len(a.Dels))
 			}
 			amt := g.amount(bzv(s.VD, a.vRank(vi), a.dRank(di)))
+			if r.Intn(7) == 0 && bzv(s.VD, a.vRank(vi), a.dRank(di)).Sign() > 0 {
+				// everything unstaked and, in the same block, a stake under another stake address:
+				// the old one still has the amount of this block waiting for maturity
+				sb.Cmds = append(sb.Cmds, stakeCmd{Kind: "unstake", V: vi, D: di, Amt: new(big.Int).Set(bzv(s.VD, a.vRank(vi), a.dRank(di)))})
+				sb.Cmds = append(sb.Cmds, stakeCmd{Kind: "stake", V: vi, D: r.Intn(len(a.Dels)), Amt: g.amount(nil), Force: true})
+				continue
+			}
 			sb.Cmds = append(sb.Cmds, stakeCmd{Kind: "unstake", V: vi, D: di, Amt: amt})
 		case x < 84:
 			di := r.Intn(len(a.Dels))
